@@ -339,7 +339,7 @@ def main(tier, seed, replay, jobs, scale):
         import json
         cases = [tuple(json.load(open(replay))["replay"]["case"])]
     else:
-        n = int((30 if tier == "quick" else 150) * scale)
+        n = int((80 if tier == "quick" else 300) * scale)
         cases = [(seed, i, tier) for i in range(n)]
     results = list(par.run_cases(run_case, cases, min(jobs, 8)))
     par.absorb(run, results)
